@@ -505,7 +505,7 @@ def run(ctx):
         'round trip after a complete HTML tag with rich UNQUOTED attribute values (HTML Living Standard 13.1.2.3: an unquoted value '
         'is any non-empty run without ASCII white space " \' = < > `, so brackets and all punctuation are value characters; JSX and '
         'template languages write items={[1,2]} on={fn(a,b)}): each of %d value characters (every permitted printable ASCII character '
-        'and %d characters outside ASCII) in %d places of a value (alone / first / middle / last / doubled / before punctuation) x %d '
+        'and %d characters outside ASCII) in %d places of a value (alone / first / middle / last / doubled / before punctuation / after a slash) x %d '
         'tag shapes (value last before > / before white space / before a self-closing slash / before a boolean, unquoted or quoted '
         'attribute / between attributes) x look-ahead on/off for markup and every third case for stylesheet; EVERY properly nested '
         'bracket word over ( ) [ ] { } with 1..%d pairs (every order of the three kinds, every nesting shape: %d words) in %d filler '
@@ -515,7 +515,7 @@ def run(ctx):
         'whole alphabet, groups of random kinds nested up to depth 6 and closers without opener; the texts of all these tags, of '
         'damaged variants and of the two switched-off classes also go through the is_html correspondence; values whose brackets are '
         'NOT properly nested (opener without closer, crossing pairs) are %s (c11_unquoted.UNQ_NOT_PROPERLY_NESTED), values in '
-        'which a / is followed by name characters only up to the end (href=/about) are %s '
+        'which a / is followed by letters, digits, - or : only up to the end (href=/about) are %s '
         '(c11_unquoted.UNQ_SLASH_BEFORE_NAME_END); '
         'a case is non-trivial when extract returns a result (consistency) or is '
         'an embedded abbreviation (round trip); distinct by (line, position, options)'
